@@ -19,6 +19,9 @@
   * `shiftDiag_hermitian`, `afStep_hermitian`, `afRun_hermitian`, `initial_moments_hermitian`   both moment tensors and ρ stay Hermitian
                          along a whole A-FSSH run with hops (`hop_update`) and collapses, for any eigh results, dt, thresholds   (C11)
 
+  * `shRun_append`, `shEnd_last`   a run over `a ++ b` = run over `a`, then run over `b` from the state and electronics the first part ended
+                         with: a restart reproduces the uninterrupted run iff it reconstructs that pair                       (C13)
+
   The tie to the code is the whole-run correspondence (`harness/runcommon.py`, op `shrun`): the real TrajectorySH is run,
   what it reads from outside at each step is recorded, and the model has to reproduce every snapshot and every event.
 -/
@@ -383,5 +386,39 @@ theorem afRun_hermitian (m : Fin n → ℝ) (dt : ℝ) (ePrev eLast : ElecA ℝ 
 theorem initial_moments_hermitian (s : SH ℝ N n) (hρ : (toM s.rho).IsHermitian) :
     MomentsHermitian (⟨s, Vec.ofFn (fun _ => zeroMoment), Vec.ofFn (fun _ => zeroMoment)⟩ : AF ℝ N n) :=
   ⟨hρ, fun x => by simpa using zeroMoment_hermitian, fun x => by simpa using zeroMoment_hermitian⟩
+
+/-! ### restart = splitting the run (C13) -/
+
+/-- the state and the electronics a run ends with (what a restart has to reconstruct) -/
+noncomputable def shEnd (m : Fin n → ℝ) (dt : ℝ) (e : Elec ℝ N n) (s : SH ℝ N n) : List (StepIn ℝ N n) → Elec ℝ N n × SH ℝ N n
+  | [] => (e, s)
+  | inp :: rest => shEnd m dt inp.elec (shStep m dt e inp s).1 rest
+
+/-- **restart at the level of the composed step**: a run over `a ++ b` is the run over `a` followed by the run over `b` started
+    from the electronics and the trajectory state the first part ended with. So a restart reproduces the uninterrupted run
+    exactly iff it reconstructs that pair - position, velocity, last velocity, ρ, label, clock, step counter and the
+    electronics (with their gauge) of the last logged step -/
+theorem shRun_append (m : Fin n → ℝ) (dt : ℝ) (e : Elec ℝ N n) (s : SH ℝ N n) (a b : List (StepIn ℝ N n)) :
+    shRun m dt e s (a ++ b) = shRun m dt e s a ++ shRun m dt (shEnd m dt e s a).1 (shEnd m dt e s a).2 b := by
+  induction a generalizing e s with
+  | nil => simp [shRun, shEnd]
+  | cons inp rest ih => simp [shRun, shEnd, ih]
+
+/-- the end state is the state of the last logged entry -/
+theorem shEnd_last (m : Fin n → ℝ) (dt : ℝ) (e : Elec ℝ N n) (s : SH ℝ N n) (a : List (StepIn ℝ N n)) (h : a ≠ []) :
+    ((shRun m dt e s a).getLast (by
+      cases a with
+      | nil => exact absurd rfl h
+      | cons i r => simp [shRun])).1 = (shEnd m dt e s a).2 := by
+  induction a generalizing e s with
+  | nil => exact absurd rfl h
+  | cons inp rest ih =>
+    cases rest with
+    | nil => simp [shRun, shEnd]
+    | cons i2 r2 =>
+      have := ih inp.elec (shStep m dt e inp s).1 (by simp)
+      simp only [shRun, shEnd] at this ⊢
+      rw [List.getLast_cons (by simp)]
+      exact this
 
 end Mud.StepThm
